@@ -34,8 +34,15 @@ var c09Terminating = []string{
 	`return 1 + 2;`,
 }
 
+// run the machine on no object in a goroutine of its own
+func make2(m *Machine) chan Outcome {
+	done := make(chan Outcome, 1)
+	go func() { done <- m.exec(nil) }()
+	return done
+}
+
 func checkC09(c *Check) {
-	c.rule = "11 non-terminating scripts (while/for at top level, foreach over a long range, unbounded and mutual recursion, branching recursion without loops, loops inside functions at call depth 1-3 inside loops, a loop inside a switch arm, foreach inside while over a hash) and 4 terminating ones, optimised and unoptimised; for every k in the tier's set the context is cancelled from the step hook after exactly k dispatched instructions (k = -1: before the run) on one evaluator re-used for all k; every run is recorded instruction by instruction and the concatenated trace is validated by TLC against Trace_VM (each step must be a step the machine allows; invariant PromptStop: no instruction is dispatched after the cancellation; the run must then end with an error); plus wall-clock runs with deadlines from already expired to 100 ms; non-trivial = a run that was cancelled while looping; distinct = distinct (script, mode, k)"
+	c.rule = "11 non-terminating scripts (while/for at top level, foreach over a long range, unbounded and mutual recursion, branching recursion without loops, loops inside functions at call depth 1-3 inside loops, a loop inside a switch arm, foreach inside while over a hash) and 4 terminating ones, optimised and unoptimised; for every k in the tier's set the context is cancelled from the step hook after exactly k dispatched instructions (k = -1: before the run) on one evaluator re-used for all k; every run is recorded instruction by instruction and the concatenated trace is validated by TLC against Trace_VM (each step must be a step the machine allows; invariant PromptStop: no instruction is dispatched after the cancellation; the run must then end with an error); plus wall-clock runs with deadlines from already expired to 100 ms, and contexts which carry a far deadline but are cancelled 30 ms into the run or before it (WithTimeout, a cancelled parent, WithCancel over WithDeadline); non-trivial = a run that was cancelled while looping; distinct = distinct (script, mode, k)"
 	c.assumptions = []string{"the context is set before Prepare; the harness context can be re-armed between runs", "wall-clock bound: deadline + 1 s, exceeded three times in a row (secondary observation)"}
 	ks := []int64{-1, 1, 2, 3, 4, 5, 6, 7, 8, 9, 10, 11, 12, 13, 14, 15, 16, 17, 18, 19, 20, 23, 29, 31, 37, 41, 53, 64, 65, 97, 127, 128, 129, 200, 255, 256, 257, 400, 1000, 1023, 1024, 1025}
 	if c.Tier == "thorough" {
@@ -183,6 +190,70 @@ func checkC09(c *Check) {
 			}
 			if len(late) == 3 {
 				c.disagree(&Disagreement{Kind: "deadline-late", Script: src, Mode: "opt", Expected: "return within " + (dl + time.Second).String(), Got: strings.Join(late, ", ")})
+			}
+		}
+	}
+	// a context which carries a (far) deadline and is cancelled long before it: the cancellation counts
+	type mk func() (context.Context, func(), func())
+	early := map[string]mk{
+		"WithTimeout(30s) cancelled": func() (context.Context, func(), func()) {
+			ctx, cancel := context.WithTimeout(context.Background(), 30*time.Second)
+			return ctx, cancel, cancel
+		},
+		"WithTimeout(30s) under a parent which is cancelled": func() (context.Context, func(), func()) {
+			parent, pcancel := context.WithCancel(context.Background())
+			ctx, cancel := context.WithTimeout(parent, 30*time.Second)
+			return ctx, pcancel, func() { cancel(); pcancel() }
+		},
+		"WithCancel over WithDeadline(+30s), cancelled": func() (context.Context, func(), func()) {
+			dl, dcancel := context.WithDeadline(context.Background(), time.Now().Add(30*time.Second))
+			ctx, cancel := context.WithCancel(dl)
+			return ctx, cancel, func() { cancel(); dcancel() }
+		},
+	}
+	for name, make := range early {
+		// (scripts which never end by themselves, or only after minutes)
+		for _, src := range []string{c09Loops[0], c09Loops[1], c09Loops[4], c09Loops[6], c09Loops[7]} {
+			for _, before := range []bool{false, true} {
+				var lateBy []string
+				for attempt := 0; attempt < 3; attempt++ {
+					ctx, cancel, cleanup := make()
+					m, err := newMachine(src, nil, []FnSpec{{Name: "t", Kind: "log"}}, true, ctx)
+					if err != nil {
+						cleanup()
+						break
+					}
+					if before {
+						cancel()
+					} else {
+						time.AfterFunc(30*time.Millisecond, cancel)
+					}
+					done := make2(m)
+					start := time.Now()
+					retry := false
+					select {
+					case o := <-done:
+						el := time.Since(start)
+						c.count(fmt.Sprintf("early|%s|%s|%v", name, src, before), true)
+						if o.Err == nil {
+							c.disagree(&Disagreement{Kind: "cancellation-ignored", Script: src, Mode: "opt", Expected: "an error once the context is cancelled", Got: o.describe(), Detail: map[string]interface{}{"context": name, "cancelled_before_run": before}})
+						} else if before && len(o.Calls) > 0 {
+							c.disagree(&Disagreement{Kind: "ran-under-cancelled-context", Script: src, Mode: "opt", Expected: "no execution at all", Got: describeCalls(o.Calls), Detail: map[string]interface{}{"context": name}})
+						} else if el > 2*time.Second {
+							lateBy = append(lateBy, el.String())
+							retry = true
+						}
+					case <-time.After(20 * time.Second):
+						c.disagree(&Disagreement{Kind: "cancellation-ignored", Script: src, Mode: "opt", Expected: "an error once the context is cancelled", Got: "still running 20 s after the cancellation (the context's own deadline is 30 s away)", Detail: map[string]interface{}{"context": name, "cancelled_before_run": before}})
+					}
+					cleanup()
+					if !retry {
+						break
+					}
+				}
+				if len(lateBy) == 3 {
+					c.disagree(&Disagreement{Kind: "cancellation-late", Script: src, Mode: "opt", Expected: "return within 2 s of the cancellation", Got: strings.Join(lateBy, ", "), Detail: map[string]interface{}{"context": name}})
+				}
 			}
 		}
 	}
